@@ -98,3 +98,15 @@ Definition pc_append_byte_ref (buf : bytes) (b : Z) : option bytes := Some (buf 
 Definition pc_append_string_value_ref (buf : bytes) (str : bytes) : option bytes := Some (buf ++ str).
 Definition pc_append_colon_ref (jsonMode : bool) (buf : bytes) : option bytes := Some (buf ++ [if jsonMode then x3a else x3d]).
 Definition pc_append_comma_ref (jsonMode : bool) (buf : bytes) : option bytes := Some (buf ++ [if jsonMode then x2c else x20]).
+
+(* Entry.printTimestamp, in the vocabulary of the encoder model's sections: key, separator, timestamp text, separator in the
+   plain formats; the timestamp colour, the text and a blank in colour mode.  [key] is what pcAppendStringKey appends for
+   the field name, [ts] what appendTimestamp appends *)
+Definition print_timestamp_ref (f_ts : bytes -> bytes) (key : bytes -> option bytes) (clr_ts : bytes)
+  (noColor jsonMode : bool) (buf : bytes) : option bytes :=
+  if noColor
+  then match key buf with
+       | None => None
+       | Some b => Some (f_ts (b ++ [if jsonMode then x3a else x3d]) ++ [if jsonMode then x2c else x20])
+       end
+  else Some (f_ts (buf ++ clr_ts) ++ [x20]).
